@@ -526,6 +526,9 @@ class Cli:
             ("list-is-dir", [y, "--scan-list", good, tree], True, False),
             ("bad-external", [y, "-d", "x", good, f0], True, "F18"),
             ("yarac-bad-external", [yc, "-d", "x", good, comp + ".6"], True, "F18"),
+            ("dup-external", [y, "-d", "a=1", "-d", "a=2", good, f0], True, False),
+            ("yarac-dup-external", [yc, "-d", "a=1", "-d", "a=2", good, comp + ".7"], True, "F19"),
+            ("compiled-unknown-external", [y, "-C", "-d", "zz=1", comp, f0], True, False),
             ("wrong-arg-count", [y, good], True, False),
             ("yarac-ok", [yc, good, comp + ".2"], False, False),
             ("yarac-syntax-error", [yc, bad, comp + ".3"], True, False),
@@ -540,22 +543,26 @@ class Cli:
                 self.violation("hang", sc, dict(d, what="did not terminate"))
                 continue
             rep = reported_error(res["err"])
-            if rep != experr:
-                self.violation("exit", sc, dict(d, what="scenario %s: expected error reported=%s, stderr says %s" % (name, experr, rep)))
-                continue
             if (res["rc"] != 0) != rep:
+                el = err_lines(res["err"])
                 if f12 is True and rep and res["rc"] == 0 and \
                         self.known("F12", "directory / scan-list mode exits 0 although scan errors were printed (scenario %s: `%s`) [cli/yara.c main: scanning_thread "
-                                          "results and the result of scan_dir are dropped]" % (name, err_lines(res["err"])[0][:80])):
+                                          "results and the result of scan_dir are dropped]" % (name, el[0][:80])):
                     pass
-                elif f12 == "F18" and rep and res["rc"] == 0 and err_lines(res["err"]) == ["error: wrong syntax for `-d` option."] and \
+                elif f12 == "F18" and rep and res["rc"] == 0 and el == ["error: wrong syntax for `-d` option."] and \
                         self.known("F18", "a malformed -d option is reported (`error: wrong syntax for `-d` option.`) but the run continues and exits 0 (scenario %s) "
                                           "[cli/common.c define_external_variables returns ERROR_SUCCESS]" % name):
                     pass
+                elif f12 == "F19" and not el and res["rc"] == 1 and \
+                        self.known("F19", "yarac exits 1 without printing anything when an external variable definition fails (scenario %s) "
+                                          "[cli/yarac.c main: result of define_external_variables not reported]" % name):
+                    pass
                 else:
                     self.violation("exit", sc, dict(d, what="exit status must be non-zero exactly when an error was reported (scenario %s)" % name))
+            elif rep != experr:
+                self.violation("exit", sc, dict(d, what="scenario %s: expected error reported=%s, stderr says %s" % (name, experr, rep)))
             elif f12:
-                self.stats["f12_scenarios_clean"] += 1
+                self.stats["known_finding_scenarios_clean"] += 1
             self.nontrivial.add((sc["id"], name))
 
 
